@@ -2316,7 +2316,8 @@ def parse_item(line_tokens):
             name, *args = tokens
             name = name.lower()
             return PseudoInstruction(line, name, *args)
-        if tokens[0].lower() in BASE_OFFSET_INSTRUCTIONS and tokens[3] == '(':
+        # imm(reg) form: the parentheses enclose exactly the base register, at the end of the line
+        if tokens[0].lower() in BASE_OFFSET_INSTRUCTIONS and len(tokens) == 6 and tokens[3] == '(' and tokens[5] == ')':
             name, rd, offset, _, rs1, _ = tokens
             imm = [offset]
         else:
@@ -2331,7 +2332,7 @@ def parse_item(line_tokens):
         return IETypeInstruction(line, name)
     # s-type instructions (all are base offset insts)
     elif head in S_TYPE_INSTRUCTIONS:
-        if tokens[3] == '(':
+        if len(tokens) == 6 and tokens[3] == '(' and tokens[5] == ')':
             name, rs2, offset, _, rs1, _ = tokens
             imm = [offset]
         else:
@@ -2466,7 +2467,7 @@ def parse_item(line_tokens):
         return CIWTypeInstruction(line, name, rd, imm)
     # cl-type instructions (all are base offset insts)
     elif head in CL_TYPE_INSTRUCTIONS:
-        if tokens[3] == '(':
+        if len(tokens) == 6 and tokens[3] == '(' and tokens[5] == ')':
             name, rd, offset, _, rs1, _ = tokens
             imm = [offset]
         else:
@@ -2476,7 +2477,7 @@ def parse_item(line_tokens):
         return CLTypeInstruction(line, name, rd, rs1, imm)
     # cs-type instructions (all are base offset insts)
     elif head in CS_TYPE_INSTRUCTIONS:
-        if tokens[3] == '(':
+        if len(tokens) == 6 and tokens[3] == '(' and tokens[5] == ')':
             name, rs2, offset, _, rs1, _ = tokens
             imm = [offset]
         else:
